@@ -15,7 +15,9 @@ Value gen(uint64_t seed, const std::string& tier)
     o.R0             = R0s[g.below(4)];
     o.nr_exp         = 4;
     o.ntheta_exp     = -1;
-    o.aniso          = 0;
+    // uniform base grid, or an anisotropically refined one (what the shipped convergence study uses); the ladder then
+    // refines it uniformly with divideBy2
+    o.aniso          = g.chance(0.5) ? 0 : g.range(1, 3);
     o.divideBy2      = 0;
     o.dirbc          = g.chance(0.5);
     // the across-origin closure models a full disk: it is only a discretisation of the stated PDE for R0 -> 0
@@ -39,13 +41,17 @@ Value gen(uint64_t seed, const std::string& tier)
     o.abs_tol        = -1;
     o.rel_tol        = 1e-11;
     o.max_iterations = 300;
-    o.threads        = g.range(1, 8);
+    o.threads        = g.range(1, 4);
+    if (o.cycle == 1 && (o.max_levels < 0 || o.max_levels > 4))
+        o.max_levels = g.range(3, 4); // a W-cycle visits the coarsest level 2^L times: keep the simulated cost bounded
     o.reduction      = g.chance(0.5) ? 1.0 : 0.5;
     o.with_exact     = true;
     o.verbose        = 0;
     Value p          = Value::object();
     p["opts"]        = o.to_json();
-    p["rungs"]       = tier == "thorough" ? 5 : 4; // 17x32 ... 129x256 (quick) / 257x512 (thorough)
+    // 17x32 ... 129x256 (quick) / 257x512 (thorough); an anisotropic base grid has about twice the radial nodes, so it
+    // gets one rung less for the same cost
+    p["rungs"]       = (tier == "thorough" ? 5 : 4) - (o.aniso > 0 ? 1 : 0);
     p["reuse"]       = g.chance(0.5); // one object through the whole ladder (convergence_order pattern) or fresh objects
     p["both"]        = true; // also solve the other extrapolation mode on the finest common rung
     p["sim"]         = gen_sim(g);
@@ -103,8 +109,15 @@ std::vector<Rung> run_ladder(SolverOpts o, int rungs, bool reuse, const Value& s
         {
             CoutCapture cap;
             SimRun sr(simcfg, r);
-            s->setup();
-            s->solve();
+            try {
+                s->setup();
+                s->solve();
+            }
+            catch (const std::exception&) {
+                r.probe("grid_parameters_rejected"); // e.g. the refined region does not fit: not a ladder
+                out.clear();
+                return out;
+            }
         }
         out.push_back(measure(*s, o, keep));
     }
@@ -118,7 +131,10 @@ void run(const Value& plan, Result& r)
     const bool reuse = plan.at("reuse").as_bool(false);
     r.signature = fmt("ladder rungs=%d reuse=%d ", rungs, (int)reuse) + o.str();
     std::vector<Rung> L = run_ladder(o, rungs, reuse, plan.at("sim"), r);
+    if (L.size() < 2)
+        return;
     r.nontrivial = true;
+    r.probe(o.aniso ? "anisotropic_base_grid" : "uniform_base_grid");
     r.probe(o.extrapolation ? "extrapolated_ladder" : "plain_ladder");
     r.probe(reuse ? "reused_object" : "fresh_objects");
     r.probe(fmt("geometry_%d", o.prob.geometry));
